@@ -314,6 +314,7 @@ bool Session::process(const f8String& from)
 		else if (_control & print)
 			cout << *msg << endl;
 
+		const bool is_seqreset(msg->get_msgtype() == Common_MsgType_SEQUENCE_RESET);
 		bool result(false), admin_result(msg->is_admin() ? handle_admin(seqnum, msg) : true);
 		if (msg->get_msgtype().size() > 1)
 			goto application_call;
@@ -348,7 +349,12 @@ application_call:
 			break;
 		}
 
-		++_next_receive_seq;
+		// the expected number moves only past a message that carried it, or as directed by a SequenceReset (which has
+		// set it to NewSeqNo - 1): a higher number opened a gap and will be resent, a lower one was a possible duplicate
+		if (seqnum == _next_receive_seq || is_seqreset)
+			++_next_receive_seq;
+		if (_state == States::st_resend_request_sent && _next_receive_seq > _resend_target)
+			do_state_change(States::st_continuous); // everything up to the message that opened the gap has arrived
 		if (retry_plog)
 			plog(from, Logger::Info, 1);
 
@@ -435,18 +441,23 @@ bool Session::sequence_check(const unsigned seqnum, const Message *msg)
 
 	if (seqnum > _next_receive_seq)
 	{
-		if (_state == States::st_resend_request_sent)
+		if (_state == States::st_resend_request_sent && _next_receive_seq <= _resend_target)
 		{
+			// still inside the range already asked for: the counterparty had this message in flight
 			slout_warn << "Resend request already sent";
 		}
-		if (_state == States::st_continuous)
+		else if (_state == States::st_logon_received)
 		{
+			// If SessionConfig has *not* been set, assume wrong logon sequence is checked.
+			if (!_sf || !_sf->get_ignore_logon_sequence_check_flag(_sf->_ses))
+				throw InvalidMsgSequence(seqnum, _next_receive_seq);
+		}
+		else
+		{
+			_resend_target = seqnum;
 			send(generate_resend_request(_next_receive_seq));
 			do_state_change(States::st_resend_request_sent);
 		}
-		// If SessionConfig has *not* been set, assume wrong logon sequence is checked.
-		else if (!_sf || !_sf->get_ignore_logon_sequence_check_flag(_sf->_ses))
-			throw InvalidMsgSequence(seqnum, _next_receive_seq);
 		return false;
 	}
 
